@@ -28,6 +28,21 @@ class MulLaws (S : Type) [Add S] [Mul S] [ScalarOps S] : Prop where
   right_distrib : ∀ a b c : S, (a + b) * c = a * c + b * c
   div_add : ∀ a b c : S, ScalarOps.div (a + b) c = ScalarOps.div a c + ScalarOps.div b c
 
+/-- what homogeneity of the closures needs on top (commutative ring laws) -/
+class CommLaws (S : Type) [Add S] [Mul S] [ScalarOps S] : Prop where
+  mul_comm : ∀ a b : S, a * b = b * a
+  mul_assoc : ∀ a b c : S, a * b * c = a * (b * c)
+  mul_zero : ∀ a : S, a * zero = zero
+  div_smul : ∀ α a c : S, ScalarOps.div (α * a) c = α * ScalarOps.div a c
+
+/-- one closure commutes with scaling the delta by `α` (after reduction to the operands' shapes) -/
+def VjpHom (α : S) (cl : List Bool → Tensor S → R (List (Option (Tensor S)))) (t : List Bool) (nd : List Nat)
+    (kd : List (List Nat)) : Prop :=
+  ∀ x, Shaped nd x → ∃ dx dz, cl t x = .ok dx ∧ cl t (tsmul α x) = .ok dz ∧
+    ∀ i : Nat, t[i]? = some true → ∃ (kdi : List Nat) (d1 d3 t1 : Tensor S), kd[i]? = some kdi ∧
+      dx[i]? = some (some d1) ∧ dz[i]? = some (some d3) ∧
+      flattenTo d1 kdi = .ok t1 ∧ flattenTo d3 kdi = .ok (tsmul α t1)
+
 /-- one closure: total on shaped deltas, answers reducible to the operands' shapes, additive -/
 def VjpLin (cl : List Bool → Tensor S → R (List (Option (Tensor S)))) (t : List Bool) (nd : List Nat)
     (kd : List (List Nat)) : Prop :=
@@ -61,6 +76,8 @@ structure LinGraph (G : Graph S) (dimsOf : Nat → List Nat) : Prop where
   lawful : G.Lawful
   lin : ∀ n cl, G.vjp n = some cl →
     VjpLin cl ((G.kids n).map (·.tracked)) (dimsOf n) ((G.kids n).map (·.dims))
+  hom : ∀ n cl, G.vjp n = some cl → ∀ α : S,
+    VjpHom α cl ((G.kids n).map (·.tracked)) (dimsOf n) ((G.kids n).map (·.dims))
 
 theorem tadd_nil : tadd (⟨[], []⟩ : Tensor S) ⟨[], []⟩ = ⟨[], []⟩ := rfl
 
@@ -144,6 +161,40 @@ def Sem.ofLin {G : Graph S} {dimsOf : Nat → List Nat} (κ : Nat → Bool) (L :
         simp only [contrib, h1, h2, h3, none_at dx p1, none_at dy p2, none_at dz p3]
         rfl
 
+theorem tsmul_nil (α : S) : tsmul α (⟨[], []⟩ : Tensor S) = ⟨[], []⟩ := rfl
+
+/-- the constructed contributions commute with scaling the delta -/
+theorem Sem.ofLin_smul {G : Graph S} {dimsOf : Nat → List Nat} (κ : Nat → Bool) (L : LinGraph G dimsOf) (α : S)
+    (n i : Nat) (s : Slot) (x : Tensor S) (hs : (G.kids n)[i]? = some s) (hx : Shaped (dimsOf n) x) :
+    (Sem.ofLin κ L).Λ n i (tsmul α x) = tsmul α ((Sem.ofLin κ L).Λ n i x) := by
+  show contrib _ _ _ i (tsmul α x) = tsmul α (contrib _ _ _ i x)
+  cases hv : G.vjp n with
+  | none => rfl
+  | some cl =>
+    obtain ⟨dx, dz, h1, h3, hall⟩ := L.hom n cl hv α x hx
+    have hkd : ((G.kids n).map (·.dims))[i]? = some s.dims := by simp [hs]
+    by_cases ht : s.tracked = true
+    · have hflag : ((G.kids n).map (·.tracked))[i]? = some true := by simp [hs, ht]
+      obtain ⟨kdi, d1, d3, t1, hk, e1, e3, f1, f3⟩ := hall i hflag
+      rw [hkd] at hk; cases hk
+      simp only [contrib, h1, h3, e1, e3, hkd, f1, f3]
+    · have hf : s.tracked = false := by simpa using ht
+      have p1 := L.lawful n cl x dx hv h1
+      have p3 := L.lawful n cl (tsmul α x) dz hv h3
+      have none_at : ∀ (ds : List (Option (Tensor S))), ds.map Option.isSome = (G.kids n).map (·.tracked) →
+          ds[i]? = some none := by
+        intro ds hlaw
+        have hiso : (ds.map Option.isSome)[i]? = some false := by rw [hlaw]; simp [hs, hf]
+        simp only [List.getElem?_map] at hiso
+        cases hd : ds[i]? with
+        | none => simp [hd] at hiso
+        | some o =>
+          cases o with
+          | none => rfl
+          | some _ => simp [hd] at hiso
+      simp only [contrib, h1, h3, none_at dx p1, none_at dz p3]
+      rfl
+
 /-! ### additive building blocks -/
 
 section blocks
@@ -213,6 +264,53 @@ theorem flatten_additive (D kd : List Nat) (hD : ∀ d ∈ D, 1 ≤ d) (hk : ∀
     · rw [← sumBroadcast_add u v kd (hu.1.trans hv.1.symm) (by rw [hu.2, hv.2])]
       exact flattenTo_spec _ kd (wf _ huv) (by rw [huv.1]; exact hne) (by rw [huv.1]; exact hfit) hk
 
+/-- `α · Σ = Σ α ·` -/
+theorem foldl_smul [MulLaws S] (α : S) (f : Nat → S) : ∀ (l : List Nat) (a : S),
+    (l.map (fun n => α * f n)).foldl (· + ·) (α * a) = α * (l.map f).foldl (· + ·) a
+  | [], _ => rfl
+  | n :: l, a => by
+    simp only [List.map_cons, List.foldl_cons]
+    rw [← MulLaws.left_distrib]
+    exact foldl_smul α f l _
+
+theorem sumList_smul [MulLaws S] [CommLaws S] (α : S) (f : Nat → S) (l : List Nat) :
+    sumList (l.map (fun n => α * f n)) = α * sumList (l.map f) := by
+  unfold sumList
+  have := foldl_smul α f l zero
+  rwa [CommLaws.mul_zero] at this
+
+theorem tsmul_getD [CommLaws S] (α : S) (x : Tensor S) (n : Nat) :
+    (tsmul α x).vals.getD n zero = α * x.vals.getD n zero :=
+  coord_smul α (CommLaws.mul_zero α) n x.vals
+
+/-- **the broadcast reduction commutes with scaling** -/
+theorem sumBroadcast_smul [MulLaws S] [CommLaws S] (α : S) (u : Tensor S) (dims : List Nat) :
+    sumBroadcast (tsmul α u) dims = tsmul α (sumBroadcast u dims) := by
+  have e1 : (tsmul α u).dims = u.dims := rfl
+  simp only [sumBroadcast, e1]
+  simp only [tsmul, List.map_map]
+  congr 1
+  apply List.map_congr_left
+  intro q _
+  simp only [Function.comp]
+  rw [← sumList_smul]
+  congr 1
+  apply List.map_congr_left
+  intro n _
+  exact tsmul_getD α u n
+
+theorem flatten_hom [MulLaws S] [CommLaws S] (α : S) (D kd : List Nat) (hD : ∀ d ∈ D, 1 ≤ d) (hk : ∀ d ∈ kd, 1 ≤ d)
+    (hfit : Fits kd D = true) (u : Tensor S) (hu : Shaped D u) :
+    ∃ t1, flattenTo u kd = .ok t1 ∧ flattenTo (tsmul α u) kd = .ok (tsmul α t1) := by
+  have hus : Shaped D (tsmul α u) := hu.tsmul α
+  by_cases he : (D == kd) = true
+  · exact ⟨u, flattenTo_eqdims u kd (by rw [hu.1]; exact he), flattenTo_eqdims _ kd (by rw [hus.1]; exact he)⟩
+  · have hne : (D == kd) = false := by simpa using he
+    have wf : ∀ w : Tensor S, Shaped D w → w.WF := fun w hw => ⟨by rw [hw.1]; exact hD, by rw [hw.1]; exact hw.2.symm⟩
+    refine ⟨sumBroadcast u kd, flattenTo_spec u kd (wf u hu) (by rw [hu.1]; exact hne) (by rw [hu.1]; exact hfit) hk, ?_⟩
+    rw [← sumBroadcast_smul]
+    exact flattenTo_spec _ kd (wf _ hus) (by rw [hus.1]; exact hne) (by rw [hus.1]; exact hfit) hk
+
 end blocks
 
 /-- one entry of a closure as a total additive map: on deltas of shape `nd` the computation `g` answers
@@ -220,7 +318,8 @@ end blocks
 structure LinEntry (g : Tensor S → R (Tensor S)) (nd kd : List Nat) : Prop where
   ex : ∃ (D : List Nat) (L : Tensor S → Tensor S), (∀ d ∈ D, 1 ≤ d) ∧ (∀ d ∈ kd, 1 ≤ d) ∧ Fits kd D = true ∧
     (∀ x, Shaped nd x → g x = .ok (L x) ∧ Shaped D (L x)) ∧
-    (∀ x y, Shaped nd x → Shaped nd y → L (tadd x y) = tadd (L x) (L y))
+    (∀ x y, Shaped nd x → Shaped nd y → L (tadd x y) = tadd (L x) (L y)) ∧
+    (∀ (α : S) x, Shaped nd x → L (tsmul α x) = tsmul α (L x))
 
 /-- what `VjpLin` asks of one tracked operand, from a `LinEntry` -/
 theorem LinEntry.use [AddLaws S] {g : Tensor S → R (Tensor S)} {nd kd : List Nat} (h : LinEntry g nd kd)
@@ -228,12 +327,24 @@ theorem LinEntry.use [AddLaws S] {g : Tensor S → R (Tensor S)} {nd kd : List N
     ∃ d1 d2 d3 t1 t2, g x = .ok d1 ∧ g y = .ok d2 ∧ g (tadd x y) = .ok d3 ∧
       flattenTo d1 kd = .ok t1 ∧ flattenTo d2 kd = .ok t2 ∧ flattenTo d3 kd = .ok (tadd t1 t2) ∧
       Shaped kd t1 ∧ Shaped kd t2 := by
-  obtain ⟨D, L, hD, hk, hfit, hg, hadd⟩ := h.ex
+  obtain ⟨D, L, hD, hk, hfit, hg, hadd, _⟩ := h.ex
   obtain ⟨g1, s1⟩ := hg x hx
   obtain ⟨g2, s2⟩ := hg y hy
   obtain ⟨g3, _⟩ := hg (tadd x y) (hx.tadd hy)
   obtain ⟨t1, t2, f1, f2, f3, q1, q2⟩ := flatten_additive D kd hD hk hfit (L x) (L y) s1 s2
   refine ⟨L x, L y, L (tadd x y), t1, t2, g1, g2, g3, f1, f2, ?_, q1, q2⟩
   rw [hadd x y hx hy]; exact f3
+
+/-- what `VjpHom` asks of one tracked operand, from a `LinEntry` -/
+theorem LinEntry.useHom [AddLaws S] [MulLaws S] [CommLaws S] {g : Tensor S → R (Tensor S)} {nd kd : List Nat}
+    (h : LinEntry g nd kd) (α : S) (x : Tensor S) (hx : Shaped nd x) :
+    ∃ d1 d3 t1, g x = .ok d1 ∧ g (tsmul α x) = .ok d3 ∧
+      flattenTo d1 kd = .ok t1 ∧ flattenTo d3 kd = .ok (tsmul α t1) := by
+  obtain ⟨D, L, hD, hk, hfit, hg, _, hsm⟩ := h.ex
+  obtain ⟨g1, s1⟩ := hg x hx
+  obtain ⟨g3, _⟩ := hg (tsmul α x) (hx.tsmul α)
+  obtain ⟨t1, f1, f3⟩ := flatten_hom α D kd hD hk hfit (L x) s1
+  refine ⟨L x, L (tsmul α x), t1, g1, g3, f1, ?_⟩
+  rw [hsm α x hx]; exact f3
 
 end Corgi
